@@ -50,8 +50,10 @@ def run_demo(demo, wt):
         shutil.rmtree(d, ignore_errors=True)
 
 
-def run_check(prop, wt, tier):
+def run_check(prop, wt, tier, pairs=False):
     env = dict(os.environ, VERIF_REPO=wt, VERIF_NO_EVIDENCE="1")
+    if not pairs:
+        env["VERIF_NO_PAIRS"] = "1"
     r = sh([PY, os.path.join(VERIF, "mc", "run.py"), "--property", prop,
             "--tier", tier], env=env)
     lines = r.stdout.splitlines()
@@ -96,7 +98,10 @@ def main():
         out["checks"] = {}
         for p in props:
             res = run_check(p, wt, "quick")
-            out["checks"][p + ":quick"] = res
+            out["checks"][p + ":quick-nopairs"] = res
+            if res["violation_lines"] == 0:
+                res = run_check(p, wt, "quick", pairs=True)
+                out["checks"][p + ":quick"] = res
             if res["violation_lines"] == 0 and thorough:
                 out["checks"][p + ":thorough"] = run_check(p, wt, "thorough")
         out["detected_by"] = [k for k, v in out["checks"].items()
